@@ -322,6 +322,11 @@ fn relations(univ: &[Vec<u8>], ev: &mut Ev) {
     let n = 1u64 << univ.len();
     let sets: Vec<Kv> = (0..n).map(|m| gen::subset(univ, m).into_iter().map(|k| (k, 0)).collect()).collect();
     let bytes: Vec<Vec<u8>> = sets.iter().map(|kv| build::build(Front::SetInsert, kv).expect("build")).collect();
+    // the same key sets as maps, with values that differ between the two sides of a pair (self: 100+i, other: i or 7)
+    let hi: Vec<Kv> = sets.iter().map(|kv| kv.iter().enumerate().map(|(i, (k, _))| (k.clone(), 100 + i as u64)).collect()).collect();
+    let lo: Vec<Kv> = sets.iter().map(|kv| kv.iter().enumerate().map(|(i, (k, _))| (k.clone(), if i % 2 == 0 { i as u64 } else { 7 })).collect()).collect();
+    let hib: Vec<Vec<u8>> = hi.iter().map(|kv| build::build(Front::MapInsert, kv).expect("build")).collect();
+    let lob: Vec<Vec<u8>> = lo.iter().map(|kv| build::build(Front::MapInsert, kv).expect("build")).collect();
     for a in 0..n as usize {
         for b in 0..n as usize {
             let sa: std::collections::BTreeSet<&Vec<u8>> = sets[a].iter().map(|(k, _)| k).collect();
@@ -337,12 +342,18 @@ fn relations(univ: &[Vec<u8>], ev: &mut Ev) {
                 let g1 = (x.is_disjoint(&y), x.is_subset(&y), x.is_superset(&y));
                 let g2 = (x.is_disjoint(VecSetStream(VecStream::new(&sets[b]))), x.is_subset(VecSetStream(VecStream::new(&sets[b]))), x.is_superset(y.range().ge("")));
                 let g3 = (fx.is_disjoint(&fy), fx.is_subset(&fy), fx.is_superset(VecStream::new(&sets[b])));
-                (g1, g2, g3)
+                // raw FSTs that carry values (maps): the relations are about keys only
+                let (hx, ly) = (Fst::new(&hib[a][..]).unwrap(), Fst::new(&lob[b][..]).unwrap());
+                let (lx, hy) = (Fst::new(&lob[a][..]).unwrap(), Fst::new(&hib[b][..]).unwrap());
+                let g4 = (hx.is_disjoint(&ly), hx.is_subset(&ly), hx.is_superset(&ly));
+                let g5 = (lx.is_disjoint(&hy), lx.is_subset(VecStream::new(&hi[b])), lx.is_superset(&hy));
+                let g6 = (hx.is_disjoint(VecStream::new(&lo[b])), hx.is_subset(&fy), fx.is_superset(&ly));
+                (g1, g2, g3, g4, g5, g6)
             });
             match r {
                 Err(p) => ev.violate("setop-panic", format!("is_disjoint/is_subset/is_superset panicked: {}", p), J::Null),
-                Ok((g1, g2, g3)) => {
-                    for (name, g) in [("Set vs &Set", g1), ("Set vs user stream / range", g2), ("raw::Fst", g3)].iter() {
+                Ok((g1, g2, g3, g4, g5, g6)) => {
+                    for (name, g) in [("Set vs &Set", g1), ("Set vs user stream / range", g2), ("raw::Fst", g3), ("raw::Fst of a map with larger values vs raw::Fst of a map with smaller values", g4), ("raw::Fst of a map with smaller values vs map / user stream with larger values", g5), ("raw::Fst of a map vs raw::Fst of a set and the other way round", g6)].iter() {
                         if *g != want {
                             ev.violate(
                                 "relation-mismatch",
@@ -644,7 +655,7 @@ pub fn run(ctx: &Ctx) -> i32 {
         ev,
         Spec {
             level: "exploration",
-            rule: "one evaluation = one (tuple of input streams, operation) run through raw::/map::/set::OpBuilder (add, push, from_iter, and Extend on builders that already hold streams, in rotation) and compared with the set-theoretic definition: emitted keys, ascending order, exactly-once, and per key the sorted multiset of (stream index, value) entries (difference: only (0, v0)); inputs: ALL k-tuples of subsets of a 4-string universe for k<=5 (quick) / 6-string universe for k<=3 (thorough), all k<=3 tuples again behind a 70-byte common key prefix, sampled k up to 13, one operation set over more than 66000 streams (own, shared and common keys), stream kinds rotated over {whole FST, range() stream, range cutting an extra key, search(AlwaysMatch), search(Complement(Str)) cutting an extra key, user Streamer over a Vec}, the same FST twice, values chosen so equal keys carry equal and differing values, run-structured tuples (stretches of 1..100 keys held by one stream only, ended by keys shared with other streams under smaller/equal/larger values), random maps up to 10^3 (quick) / 10^5 (thorough) keys; plus is_disjoint/is_subset/is_superset on all ordered pairs of subsets with FST, range and user-stream arguments; non-trivial = every (tuple, op); distinct = by construction for the exhaustive part, by fingerprint for the sampled part",
+            rule: "one evaluation = one (tuple of input streams, operation) run through raw::/map::/set::OpBuilder (add, push, from_iter, and Extend on builders that already hold streams, in rotation) and compared with the set-theoretic definition: emitted keys, ascending order, exactly-once, and per key the sorted multiset of (stream index, value) entries (difference: only (0, v0)); inputs: ALL k-tuples of subsets of a 4-string universe for k<=5 (quick) / 6-string universe for k<=3 (thorough), all k<=3 tuples again behind a 70-byte common key prefix, sampled k up to 13, one operation set over more than 66000 streams (own, shared and common keys), stream kinds rotated over {whole FST, range() stream, range cutting an extra key, search(AlwaysMatch), search(Complement(Str)) cutting an extra key, user Streamer over a Vec}, the same FST twice, values chosen so equal keys carry equal and differing values, run-structured tuples (stretches of 1..100 keys held by one stream only, ended by keys shared with other streams under smaller/equal/larger values), random maps up to 10^3 (quick) / 10^5 (thorough) keys; plus is_disjoint/is_subset/is_superset on all ordered pairs of subsets with FST, range and user-stream arguments, through set::Set and through raw::Fst over sets and over maps whose values differ between the two sides (larger on either side); non-trivial = every (tuple, op); distinct = by construction for the exhaustive part, by fingerprint for the sampled part",
             assumptions: vec!["order among IndexedValue entries of one key is unspecified (heap order) and therefore compared as a sorted multiset".into(), "zero-stream difference/intersection are outside the statement and not judged".into()],
             floors: vec![
                 ("cov:has-empty-stream", 100),
